@@ -871,6 +871,14 @@ impl B {
             2 => 33 + self.rng.range(0, 30),
             _ => (1usize << self.rng.range(1, mmax)) + self.rng.range(0, 3),
         };
+        let (n, m) = if self.tgt.miri && self.rng.chance(1, 2) {
+            // the interpreter affords few, small episodes: spend half of them
+            // where a vector searcher without its needle-length cap would hurt
+            // (needle longer than the largest pair offset, 254)
+            (1usize << max_log, self.rng.range(260, 520))
+        } else {
+            (n, m)
+        };
         let (needle, hay, _fam) = inputs::cost_pair(&mut self.rng, n, m);
         let hay = self.buf(hay, None);
         let needle = self.buf(needle, None);
@@ -1239,7 +1247,11 @@ pub fn generate(profile: Profile, verif_seed: u64, index: u64, tgt: Target) -> F
             for t in 0..nthreads {
                 let n_scen = b.rng_range(1, 4);
                 for _ in 0..n_scen {
-                    let (mh, mn) = (b.max_hay(if profile == Profile::C05 { 4000 } else { 1500 }), 300);
+                    let long_needles = !tgt.scale_small && b.rng.chance(1, 6);
+                    let (mh, mn) = (
+                        b.max_hay(if profile == Profile::C05 { 4000 } else { 1500 }).max(if long_needles { 7000 } else { 0 }),
+                        if long_needles { 6000 } else { 300 },
+                    );
                     match b.rng.below(9) {
                         0 | 1 => {
                             let k = b.rng_range(1, 5);
